@@ -23,6 +23,7 @@ fn usage() -> ExitCode {
 }
 
 fn main() -> ExitCode {
+    lasso_verif_harness::talloc::trace_from_env();
     let args: Vec<String> = std::env::args().skip(1).collect();
     match args.first().map(String::as_str) {
         Some("run") => {
